@@ -28,7 +28,8 @@ var Def = driver.PropDef{
 		"R2 partition (on every path of one probing iteration the host becomes Source or is appended to Slaves, never neither/both; a Source chosen earlier in the pass is kept as a replica when another host is chosen); " +
 		"R3 bounded retry (recursive call with depth-1, only when depth != 0, depth 0 ends in an error; maxRetries a non-negative constant; no other loop); " +
 		"R4 every node is probed (Source followed by all Slaves, no early exit from the loop); " +
-		"R5 updateSlotTopology turns an error into a no-return log and otherwise replaces ds.node.",
+		"R5 updateSlotTopology turns an error into a no-return log and otherwise replaces ds.node; " +
+		"R6 on the call tree of the role probe (connection factory, OpenNetConn, AuthPassword, ...) no branch taken on a non-nil error leads to a no-return call, except the sites frozen from the pinned tree.",
 	NotDecided: "'currently reports' (freshness of the answer), fault sequences across retries, the back-off duration, the INFO text format beyond the role:master / role:slave constants.",
 	Trusted:    []string{"go/parser, go/types, go/cfg (x/tools v0.29.0)", "regexp.MatchString / strings semantics", "redigo Conn.Do semantics"},
 	Run:        Run,
@@ -40,12 +41,16 @@ func Run(c *core.Ctx) {
 	get := c.Func(pkgSup, sup, "GetSlotState")
 	upd := c.Func(pkgSync, "DbSyncer", "updateSlotTopology")
 	trueNil := false
+	retryLoop := token.NoPos
 	if node != nil {
 		trueNil = nodeState(c, node)
 	}
+	if node != nil {
+		tolerate(c, node)
+	}
 	if rec != nil && node != nil {
 		selection(c, rec, node, trueNil)
-		retry(c, rec, get)
+		retryLoop = retry(c, rec, get)
 	}
 	for _, fn := range []*core.Fn{node, rec, get} {
 		if fn == nil {
@@ -53,6 +58,9 @@ func Run(c *core.Ctx) {
 		}
 		core.Inspect(fn.Decl.Body, func(n ast.Node) bool {
 			if fs, ok := n.(*ast.ForStmt); ok {
+				if fn == rec && retryLoop.IsValid() && fs.Pos() == retryLoop {
+					return true // the retry itself, written as a counting loop (R3.retry decides it)
+				}
 				if list, _ := tt.LoopElem(fn.Pkg.TypesInfo, fs); list != nil && fs.Post != nil {
 					if inc, ok := fs.Post.(*ast.IncDecStmt); ok && inc.Tok == token.INC {
 						return true // `for i := ..; i < len(l); i++`: bounded by the list
@@ -124,6 +132,7 @@ func nodeState(c *core.Ctx, fn *core.Fn) (trueImpliesNil bool) {
 		}
 	}
 	body = view.Body
+	x.Rewrite = tt.PrefixBySlicing(info) // hand-written prefix tests, strings.Index(..) == 0
 	name := fn.Decl.Name.Name
 	pkgInit := func(id *ast.Ident) ast.Expr { // initialiser of a package-level variable
 		v, ok := core.ObjOf(info, id).(*types.Var)
